@@ -1,0 +1,65 @@
+//! Verification hooks (cargo feature `verif`, off by default).
+//!
+//! Nothing in here changes behaviour: the module only re-exports private items and
+//! wraps private functions so that an external model-checking harness can *call* the
+//! real code, and it provides a canonical, complete dump of the core's state.
+
+pub use crate::auth::{JwtClaims, Privileges, get_claims, pattern_matches};
+pub use crate::leader_follower::{ClientWriteCommand, LeaderSyncMessage, StateSync};
+pub use crate::persistence::error::{PersistenceError, PersistenceResult};
+pub use crate::persistence::{is_persistence_locked, unlock_persistence};
+pub use crate::server::common::WbFunction;
+pub use crate::server::common::protocol::Proto;
+pub use crate::store::{PersistedStore, StoreNode};
+pub use crate::worterbuch::{PStateAggregator, Worterbuch};
+
+use crate::{Config, server::CloneableWbApi};
+use tosub::SubsystemHandle;
+
+/// The body of the regular-mode core loop for one request.
+pub async fn process_api_call(worterbuch: &mut Worterbuch, function: WbFunction) {
+    crate::process_api_call(worterbuch, function).await
+}
+
+/// `Worterbuch::flush` (private to the crate).
+pub async fn flush(worterbuch: &mut Worterbuch) -> PersistenceResult<()> {
+    worterbuch.flush().await
+}
+
+/// What the shutdown sequence does to the core before the final flush.
+pub async fn apply_all_grave_goods_and_last_wills(worterbuch: &mut Worterbuch) {
+    worterbuch.apply_all_grave_goods_and_last_wills().await
+}
+
+/// `persistence::restore`: storage selection by config, load, hand the storage to the core.
+pub async fn restore(
+    subsys: &SubsystemHandle,
+    config: &Config,
+    api: &CloneableWbApi,
+) -> PersistenceResult<Worterbuch> {
+    crate::persistence::restore(subsys, config, api).await
+}
+
+/// Complete canonical dump of the core's state (see the three `*_hooks.rs` files).
+pub fn snapshot(worterbuch: &Worterbuch) -> serde_json::Value {
+    crate::worterbuch::verif_hooks::snapshot(worterbuch)
+}
+
+pub mod json {
+    pub use crate::persistence::verif_hooks::{
+        json_load as load, json_periodic as periodic, json_synchronous as synchronous,
+    };
+}
+
+pub mod leader {
+    pub use crate::leader_follower::leader::verif_hooks::*;
+}
+
+pub mod follower {
+    pub use crate::leader_follower::follower::verif_hooks::*;
+}
+
+#[cfg(target_family = "unix")]
+pub mod unix {
+    pub use crate::server::unix::verif_hooks::*;
+}
